@@ -153,7 +153,11 @@ def build(features, pid="P1", seed=0):
         note("n5t", m3, m3len, "A", 4)
         tie("n5", "n5t")
     # ---- voice 2
-    if two_v:
+    if two_v and "divisions_change_mid" in f and "split_at_change" in f:
+        # voice 2 changes note exactly where the divisions change: no note sounds across the change
+        note("b0", m1, 2, "C", 3, voice=2, staff=st2)
+        note("b0b", m1 + 2, 2, "D", 3, voice=2, staff=st2)
+    elif two_v:
         note("b0", m1, 4, "C", 3, voice=2, staff=st2)
         if "voice_gap" in f:
             # voice 2 is silent for the first quarter of the second measure, without a rest
@@ -212,6 +216,12 @@ def build(features, pid="P1", seed=0):
     def direction(text, q0, q1=None):
         for d in parse_direction(text):
             part.add(d, B.t(q0), B.t(q1) if q1 is not None else None)
+    if "dynamics_both_staves" in f:
+        part.add(sc.ConstantLoudnessDirection("p"), B.t(m1))
+        part.add(sc.ConstantLoudnessDirection("p", staff=2), B.t(m1))
+        part.add(sc.ConstantLoudnessDirection("f"), B.t(m2))
+        part.add(sc.ConstantLoudnessDirection("mf", staff=2), B.t(m3))
+        part.add(sc.ConstantLoudnessDirection("mf"), B.t(m3))
     if "dynamics" in f:
         part.add(sc.ConstantLoudnessDirection("f"), B.t(m1 + 1))
         part.add(sc.ImpulsiveLoudnessDirection("sfz"), B.t(m2))
@@ -318,6 +328,9 @@ def catalogue(tier="quick"):
                     "divisions_change", "dotted", "group", "measure_names"]),
         ("rich_c", ["pickup", "two_voices", "voice_gap", "unpitched", "divisions_change_mid", "irregular_measure", "nested_group", "tie_cross_voice", "grace"]),
         ("polyphony_both", ["two_voices", "polyphony", "polyphony_two_voices"]),
+        ("two_voices_divisions_change_between_notes", ["two_voices", "divisions_change_mid", "split_at_change"]),
+        ("two_staves_divisions_change_between_notes_pickup", ["pickup", "two_staves", "divisions_change_mid", "split_at_change", "divisions_change"]),
+        ("same_dynamic_on_both_staves", ["two_staves", "dynamics_both_staves"]),
         ("polyphony_ties", ["polyphony", "tie_barline", "tie_cross_voice", "two_staves"]),
     ]
     out += combos
